@@ -345,7 +345,8 @@ def clear (s : DHG) (removeNetAttr : Bool) : DHG × Outcome :=
 /-- `DH.copy()`: a fresh (unfrozen) `DiHypergraph()` filled through the public mutators
     `add_nodes_from((n, attrs) …)` and `add_edges_from((dimembers, id, attrs) …)` (format 4), then
     `_net_attr` and the counter are copied over.  A raise inside leaves the original untouched
-    (the caller never receives the copy). -/
+    (the caller never receives the copy); a warning inside (it cannot happen on a well-formed source:
+    `C07D.copy_snapshot`) would be the outcome of the call. -/
 def copy (s : DHG) : Option (DHG × Outcome) :=
   let r1 := addNodesFrom DHG.empty (s.nodes.map (fun n => (n, some (s.nattr n)))) []
   if r1.2.isErr then some (s, r1.2) else
@@ -354,7 +355,7 @@ def copy (s : DHG) : Option (DHG × Outcome) :=
   | none => none
   | some r2 =>
     if r2.2.isErr then some (s, r2.2) else
-    some ({ r2.1 with net := s.net, uid := s.uid }, .ok)
+    some ({ r2.1 with net := s.net, uid := s.uid }, r1.2.join r2.2)
 
 /-! ### convert_labels_to_integers(in_place=True), DiHypergraph branch -/
 
